@@ -434,3 +434,11 @@ PROPS["C19"]["miri"] = {"package": "mirislice", "shards": 1, "tiers": ["thorough
 PROPS["C16"]["tiers"]["thorough"]["watchdog"] = 1500
 PROPS["C16"]["level_note"] += "; thorough tier: the decoder enumeration and a small generated slice also run under Miri (cargo +nightly miri run -p mirislice), any Undefined Behaviour report is a violation"
 PROPS["C19"]["level_note"] += "; thorough tier: signal / exit-status conversions also run under Miri"
+
+# ThreadSanitizer overlay (thorough tier): the multi-threaded sender workload of the supervisor engine, built with
+# -Zsanitizer=thread -Zbuild-std; a race report whose racing access is in watchexec code and that repeats is a violation
+for _p in ("C04", "C07", "C10"):
+    PROPS[_p]["tsan"] = {"package": "simjob", "shards": 4, "tiers": ["thorough"], "args": {"mt-only": 1}}
+    PROPS[_p]["level_text"] += ("; plus a multi-threaded real-clock family (2-4 concurrent sender tasks on a 2-4-thread runtime, random yields / "
+                               "sleeps, injected faults) judged by the invariant oracles only (never two live processes; per sender and priority "
+                               "FIFO, exactly once; every ticket resolved when the job ends); thorough tier also runs that family under ThreadSanitizer")
